@@ -478,7 +478,7 @@ var c05OpBag = func() []string {
 var c05Modes = []os.FileMode{0o644, 0o600, 0o755, 0o700, 0o444, 0, 0o777, 0o755 | os.ModeSetuid, 0o775 | os.ModeSetgid, 0o777 | os.ModeSticky}
 var c05Flags = []int{os.O_RDONLY, os.O_WRONLY | os.O_CREATE, os.O_RDWR | os.O_CREATE | os.O_EXCL, os.O_WRONLY | os.O_TRUNC,
 	os.O_WRONLY | os.O_CREATE | os.O_TRUNC, os.O_RDWR, os.O_WRONLY, os.O_RDWR | os.O_CREATE}
-var c05GlobComps = []string{"a", "b", "c", "d", "*", "*", "?", "[ab]", "[b-d]", "a*"}
+var c05GlobComps = []string{"a", "b", "c", "d", "*", "*", "?", "[ab]", "[b-d]", "a*", "\\a", "\\b", "\\*"}
 var c05TargetsRel = []string{"a", "b", "a/b", "../b", "d", "nowhere", "", "c"}
 var c05TargetsAbs = []string{"$R/a", "$R/b", "$R/a/b", "$R/d", "$R/a/d"}
 
@@ -579,6 +579,11 @@ func c05Directed() []c05Dir {
 		{0, 0, []*c05Op{o1("glob", "./a")}},
 		{0, 0, []*c05Op{o1("glob", "a/")}},
 		{0, 0, []*c05Op{o1("glob", "d/[")}},
+		// the backslash is a magic character too: patterns whose only magic is an escape
+		{0, 0, []*c05Op{o1("glob", "\\a"), o1("glob", "a/\\b"), o1("glob", "\\a/b"), o1("glob", "\\a/*"), o1("glob", "a/\\*")}},
+		{0, 0, []*c05Op{o1("glob", "a\\")}},
+		{0, 0, []*c05Op{o1("glob", "a/b\\")}},
+		{0, 0, []*c05Op{o1("glob", "a\\/*")}},
 		{0, 0, []*c05Op{o1("removeall", "b/")}},
 		{0, 0, []*c05Op{o1("removeall", "a/.")}},
 		{0, 0, []*c05Op{o1("remove", "a/c/")}},
